@@ -5,6 +5,8 @@ package kit
 
 import (
 	"context"
+	"sync/atomic"
+	"runtime/debug"
 	"fmt"
 	"math"
 	"strconv"
@@ -184,7 +186,7 @@ type Controllers struct {
 	CSet    *simapi.Client
 	CPT     *simapi.Client
 	Opts    CtlOpts
-	invN    int
+	invN    int64
 }
 
 // CtlOpts are the controller-level options.
@@ -232,12 +234,34 @@ type Outcome struct {
 	Result reconcile.Result
 	Err    error
 	Panic  string
+	// PanicAt is the innermost repository function on the panicking stack (line numbers stripped).
+	PanicAt string
+}
+
+// PanicSite extracts the innermost repository frame from a stack dump.
+func PanicSite(stack string) string {
+	lines := strings.Split(stack, "\n")
+	seenPanic := false
+	for _, l := range lines {
+		if strings.HasPrefix(l, "panic(") {
+			seenPanic = true
+			continue
+		}
+		if seenPanic && strings.HasPrefix(l, "github.com/DataDog/extendeddaemonset/") && !strings.Contains(l, "verifclock") {
+			fn := l
+			if i := strings.LastIndex(fn, "("); i > 0 {
+				fn = fn[:i]
+			}
+			return fn[strings.LastIndex(fn, "/")+1:]
+		}
+	}
+	return "unknown"
 }
 
 // Reconcile runs one controller once on ns/name, recording the invocation; panics raised in
 // the calling goroutine are recovered and reported.
 func (c *Controllers) Reconcile(ctl, ns, name, mode string) (out Outcome) {
-	c.invN++
+	id := int(atomic.AddInt64(&c.invN, 1))
 	var cl *simapi.Client
 	var rec reconcile.Reconciler
 	switch ctl {
@@ -252,12 +276,13 @@ func (c *Controllers) Reconcile(ctl, ns, name, mode string) (out Outcome) {
 	default:
 		panic("unknown controller " + ctl)
 	}
-	inv := cl.Begin(c.invN, ctl, ns, name, mode)
+	inv := cl.Begin(id, ctl, ns, name, mode)
 	out.Inv = inv
 	defer func() {
 		if r := recover(); r != nil {
 			out.Panic = fmt.Sprint(r)
-			inv.Panic = out.Panic
+			out.PanicAt = PanicSite(string(debug.Stack()))
+			inv.Panic = out.Panic + " @ " + out.PanicAt
 		}
 		inv.Err = out.Err
 		inv.ResultStr = fmt.Sprintf("%+v", out.Result)
